@@ -47,7 +47,7 @@ def div (a b : Number) : Outcome Number :=
 /-- `powi` -/
 def powi (a : Number) (e : Int) : Outcome Number :=
   -- unit exponents must stay inside i64 ("Exponent is too large")
-  if a.unit.any (fun kp => kp.2 * e < -9223372036854775808 || kp.2 * e > 9223372036854775807) then .err .generic else
+  if a.unit.any (fun kp => kp.2 * e ≤ -9223372036854775808 || kp.2 * e > 9223372036854775807) then .err .generic else
   if e.natAbs * bitSize a.value > hugeBits then .unsupported "huge power" else do
   let v ← a.value.pow e
   pure ⟨v, Dim.pow a.unit e⟩
